@@ -5,6 +5,7 @@ import AscentVerif.Model.Hir
 import AscentVerif.Model.EnginePhys
 import AscentVerif.Model.EnginePhysPar
 import AscentVerif.Model.EnginePhysTimeout
+import AscentVerif.Model.EnginePhysParTimeout
 import AscentVerif.Model.EnginePhysLat
 import AscentVerif.Model.EnginePhysParLat
 import AscentVerif.Model.EnginePhysLatTimeout
@@ -309,6 +310,24 @@ def doRunPhysPar (s : EngStore) (inst : String) (threads : Nat) : Option (EngSto
       | .ok none => some (s, "nofuel")
       | .panic => some (s, "panic (frozen-state protocol)")
 
+/-- `run_timeout` through the PARALLEL physical-index engine model (`Model/EnginePhysParTimeout.lean`) in a pool of `threads`
+workers: the `k`-th clock reading finds the deadline passed -/
+def doRunPhysParTimeout (s : EngStore) (inst : String) (k threads : Nat) : Option (EngStore × String) := do
+    let i ← (s.insts.find? (·.1 == inst)).map (·.2)
+    let p := desugRepeated i.pd.prog
+    if p.rels.any (·.lat) then some (s, "na")
+    else if !Phys.aggPlanOk stdVars p (Phys.ixSetsOfA stdVars p) then some (s, "na-plan")
+    else
+      let ix := Phys.ixSetsOfA stdVars p
+      let s0 : PhysPar.PCSt := PhysPar.initSt threads p ix fun r => (relSt i.st r).rows
+      let back (ps : PhysPar.ProgStT) : Inst := { i with st := ps.st.map fun pr => { rows := pr.rows, idx := [] }, iters := ps.iters }
+      match PhysPar.runTimeout (interp (kindOf i.pd)) stdVars p ix i.pd.order (demoSched threads) threads (fun c => c == k)
+          defaultFuel s0 with
+      | .ok (.done ps) => some ({ s with insts := (inst, back ps) :: s.insts.filter (·.1 != inst) }, "true")
+      | .ok (.timedOut ps) => some ({ s with insts := (inst, back ps) :: s.insts.filter (·.1 != inst) }, "false")
+      | .ok .outOfFuel => some (s, "nofuel")
+      | .panic => some (s, "panic")
+
 /-- `run()` through the PARALLEL physical-index engine model WITH lattices (`Model/EnginePhysParLat.lean`) in a pool of `threads`
 workers (rules one after the other: no `#![inter_rule_parallelism]`): aggregation-free programs -/
 def doRunPhysParLat (s : EngStore) (inst : String) (threads : Nat) : Option (EngStore × String) := do
@@ -366,6 +385,7 @@ def handleEng (s : EngStore) : List Sexp → Option (EngStore × String)
     else if op == "runppl" then do doRunPhysParLat s inst (← r.asNat?)
     else if op == "runtopl" then do doRunPhysLatTimeout s inst (← r.asNat?)
     else if op == "runtop" then do doRunPhysTimeout s inst (← r.asNat?)
+    else if op == "runtopp" then do doRunPhysParTimeout s inst (← r.asNat?) (← (← tuples.head?).asNat?)
     else if op == "runto" then do
       let i ← (s.insts.find? (·.1 == inst)).map (·.2)
       let k ← r.asNat?
